@@ -68,6 +68,9 @@ func num(v int64) T { return numBig(big.NewInt(v)) }
 func pow2(k uint) *big.Int { return new(big.Int).Lsh(big.NewInt(1), k) }
 
 func app(op string, args ...T) T {
+	if len(args) == 0 {
+		return op
+	}
 	return "(" + op + " " + strings.Join(args, " ") + ")"
 }
 
@@ -314,6 +317,24 @@ func tSel(m, i T) T {
 	return app("select", m, i)
 }
 func tStore(m, i, v T) T { return app("store", m, i, v) }
+
+// tIdx: address of element i of a slice with offset off. Arithmetic inside quantifier
+// triggers defeats E-matching (z3 normalises sums), so the address is an application of the
+// function idx, axiomatised as off + i with an explicit pattern (idxAxiom is added to every
+// script that mentions idx).
+func tIdx(off, i T) T {
+	if off == "0" {
+		return i
+	}
+	_, ok1 := isNum(off)
+	_, ok2 := isNum(i)
+	if ok1 && ok2 {
+		return tAdd(off, i)
+	}
+	return app("idx", off, i)
+}
+
+const idxDecl = "(declare-fun idx (Int Int) Int)\n(assert (forall ((idx_o Int) (idx_i Int)) (! (= (idx idx_o idx_i) (+ idx_o idx_i)) :pattern ((idx idx_o idx_i)))))\n"
 
 // splitTop splits an s-expression body on top-level spaces.
 func splitTop(s string) []string {
